@@ -54,6 +54,10 @@ enum Peer {
     /// the node is a live member but does not (yet) run the store's consistency service:
     /// its RPC server answers with the error status ServiceUnavailable
     NoService,
+    /// the replica neither fails nor answers: its storage call never returns (a stalled
+    /// disk, a black-holed connection). The call may stay pending — the property promises no
+    /// deadline — but if it returns, the answer must be true (added after C06-l)
+    Stuck,
 }
 
 #[derive(Clone, Debug)]
@@ -131,6 +135,8 @@ struct Outcome {
     acked_for_real: usize,
     holders_after_heal: Vec<NodeId>,
     notes: Vec<String>,
+    /// the call had not returned within the horizon
+    pending: bool,
 }
 
 async fn holds<St: Storage>(store: &St, written: &[(u64, HLCTimestamp, bool)]) -> bool {
@@ -183,6 +189,10 @@ async fn execute(sc: &Scenario) -> Outcome {
             let i = cluster.index_of(*n);
             cluster.nodes[i].storage.plan([Fault::FailAfter(1)]);
         }
+        if *p == Peer::Stuck {
+            let i = cluster.index_of(*n);
+            cluster.nodes[i].storage.plan([Fault::ParkAfter(0)]);
+        }
         if *p == Peer::NoService {
             let i = cluster.index_of(*n);
             cluster.nodes[i]
@@ -192,11 +202,23 @@ async fn execute(sc: &Scenario) -> Outcome {
     }
     let log_before = cluster.nodes[ii].storage.log_len();
     let store = cluster.nodes[ii].store.clone();
-    let res = match sc.kind {
-        Kind::Put => store.put(KS, 1, b"one".to_vec(), sc.level).await,
-        Kind::PutMany => store.put_many(KS, vec![(1u64, b"one".to_vec()), (2u64, b"two".to_vec())], sc.level).await,
-        Kind::Del => store.del(KS, 1, sc.level).await,
-        Kind::DelMany => store.del_many(KS, vec![1u64, 2u64], sc.level).await,
+    let stuck = sc.peers.values().any(|p| *p == Peer::Stuck);
+    let call = async {
+        match sc.kind {
+            Kind::Put => store.put(KS, 1, b"one".to_vec(), sc.level).await,
+            Kind::PutMany => store.put_many(KS, vec![(1u64, b"one".to_vec()), (2u64, b"two".to_vec())], sc.level).await,
+            Kind::Del => store.del(KS, 1, sc.level).await,
+            Kind::DelMany => store.del_many(KS, vec![1u64, 2u64], sc.level).await,
+        }
+    };
+    // a horizon of 60 s of virtual time: a call still pending then is reported as such
+    let res = match tokio::time::timeout(std::time::Duration::from_secs(60), call).await {
+        Ok(r) => r,
+        Err(_) => {
+            out.result = "pending after 60 s".into();
+            out.pending = true;
+            Ok(())
+        },
     };
     // ---- the moment the call returned: inspect every node's storage
     let log = cluster.nodes[ii].storage.log();
@@ -212,6 +234,7 @@ async fn execute(sc: &Scenario) -> Outcome {
         }
     }
     match &res {
+        Ok(()) if out.pending => {},
         Ok(()) => out.result = "Ok".into(),
         Err(StoreError::ConsistencyError(ConsistencyError::NotEnoughNodes { .. })) => {
             out.result = "NotEnoughNodes".into();
@@ -229,6 +252,11 @@ async fn execute(sc: &Scenario) -> Outcome {
         .iter()
         .filter(|n| sc.peers.get(n).copied().unwrap_or(Peer::Ack) == Peer::Ack)
         .count();
+    if stuck {
+        // the stalled replica's actor never answers again: no heal phase in these scenarios
+        out.holders_after_heal = sc.layout.iter().map(|(n, _)| *n).collect();
+        return out;
+    }
     // ---- heal: the write must still be replicated later
     datacake_rpc::verif::set_policy(|_, _| NetVerdict::Deliver);
     for n in &cluster.nodes {
@@ -265,6 +293,13 @@ fn judge(sc: &Scenario, out: &Outcome, st: &mut Stats) {
                 || format!("{:?} needs {need} other node(s), {others} exist, yet NotEnoughNodes", sc.level),
                 case,
             );
+        }
+        return;
+    }
+    if out.pending {
+        st.inc("calls_still_pending_with_a_stalled_replica");
+        if !sc.peers.values().any(|p| *p == Peer::Stuck) {
+            st.violation("call-never-returned", || "the call was still pending after 60 s although no replica was stalled".to_string(), case);
         }
         return;
     }
@@ -451,6 +486,20 @@ pub fn run(tier: Tier) -> i32 {
             }
         }
     }
+    // one stalled replica, every other one acknowledging (added after the seeded change C06-l)
+    for layout in layouts(tier.is_thorough()) {
+        for (issuer, _) in &layout {
+            let others: Vec<NodeId> = layout.iter().map(|(n, _)| *n).filter(|n| n != issuer).collect();
+            for victim in &others {
+                let peers: BTreeMap<NodeId, Peer> = others.iter().map(|n| (*n, if n == victim { Peer::Stuck } else { Peer::Ack })).collect();
+                for level in LEVELS {
+                    for kind in [Kind::Put, Kind::PutMany, Kind::Del, Kind::DelMany] {
+                        scenarios.push(Scenario { layout: layout.clone(), issuer: *issuer, level, kind, pre_advance: None, peers: peers.clone(), grew_from: None });
+                    }
+                }
+            }
+        }
+    }
     // the cluster has just grown: a selection made at the same level under the smaller
     // membership must not decide who the write goes to (added after the seeded change C06-j)
     for layout in layouts(tier.is_thorough()) {
@@ -540,6 +589,7 @@ pub fn replay(case: &J) -> i32 {
                 "StorageFails" => Peer::StorageFails,
                 "StoragePartial" => Peer::StoragePartial,
                 "NoService" => Peer::NoService,
+                "Stuck" => Peer::Stuck,
                 _ => Peer::Ack,
             };
             Some((n.parse().ok()?, p))
